@@ -2,3 +2,5 @@ import PlcModel.Regex
 import PlcModel.Lex
 import PlcModel.SemTok
 import PlcModel.Lsp
+import PlcModel.Graph
+import PlcModel.Analyze
